@@ -80,14 +80,18 @@ func hostileWorker(args []string) error {
 	sc.Buffer(make([]byte, 1<<20), 1<<28)
 	var current int64 = -1
 	var started time.Time
+	var startedCPU time.Duration
 	var mu sync.Mutex
 	go func() { // watchdog: a case that overruns its deadline ends the process
+		// The deadline is measured in CPU time consumed by this process since the case started: a loop that makes no
+		// progress burns CPU without bound, while a machine that is busy with other work only stretches the wall clock
+		// (which is bounded separately, generously, for the sake of a blocked case).
 		for {
 			time.Sleep(200 * time.Millisecond)
 			mu.Lock()
-			c, s := current, started
+			c, s, sc := current, started, startedCPU
 			mu.Unlock()
-			if c >= 0 && time.Since(s) > *deadline {
+			if c >= 0 && (cpuTime()-sc > *deadline || time.Since(s) > 30**deadline) {
 				fmt.Fprintf(of, "TIMEOUT %d\n", c)
 				of.Sync()
 				os.Exit(3)
@@ -106,7 +110,7 @@ func hostileWorker(args []string) error {
 		}
 		fmt.Fprintf(of, "START %d\n", c.I)
 		mu.Lock()
-		current, started = int64(c.I), time.Now()
+		current, started, startedCPU = int64(c.I), time.Now(), cpuTime()
 		mu.Unlock()
 		var m0, m1 runtime.MemStats
 		runtime.ReadMemStats(&m0)
@@ -448,7 +452,6 @@ func hrun(args []string) error {
 	return o.emit(tr)
 }
 
-
 // runCases executes the cases of a file in isolated worker processes and returns one outcome per case.
 func runCases(casesPath string, n int, dirv string, workersv int) []*houtcome {
 	dir, workers := &dirv, &workersv
@@ -553,6 +556,15 @@ func runCases(casesPath string, n int, dirv string, workersv int) []*houtcome {
 		os.Remove(of)
 	}
 	return outcomes
+}
+
+// cpuTime is the CPU time (user + system) this process has consumed so far.
+func cpuTime() time.Duration {
+	var ru syscall.Rusage
+	if err := syscall.Getrusage(syscall.RUSAGE_SELF, &ru); err != nil {
+		return 0
+	}
+	return time.Duration(ru.Utime.Nano() + ru.Stime.Nano())
 }
 
 func firstLine(s string) string {
